@@ -187,6 +187,38 @@ func c12fHistory(t *rapid.T) []c12fStep {
 	return steps
 }
 
+// c12fUniverse lists everything a history of c12fHistory can name (for read sweeps).
+type c12fNames struct {
+	tags, mans, blobs []string
+	subject           string
+}
+
+func c12fUniverse() c12fNames {
+	cfg := []byte("{}")
+	cfgD := dig("sha256", cfg)
+	layers := [][]byte{[]byte("layer one"), []byte("layer two, a little longer than the first"), bigBlob(40000, 3)}
+	u := c12fNames{tags: []string{"t1", "t2", "t1-idx", "t2-idx", "after"}, blobs: []string{cfgD}}
+	for _, l := range layers {
+		u.blobs = append(u.blobs, dig("sha256", l))
+	}
+	img := func(i int, subj *mdesc, at string) ([]byte, string) {
+		l := layers[i%len(layers)]
+		raw, _ := buildImage(mtImage, mtConfig, cfgD, len(cfg), []string{dig("sha256", l)}, []int{len(l)}, subj, at, map[string]string{"i": fmt.Sprint(i)})
+		return raw, dig("sha256", raw)
+	}
+	sraw, sd := img(0, nil, "")
+	u.subject = sd
+	for i := 0; i < 3; i++ {
+		raw, d := img(i, nil, "")
+		u.mans = append(u.mans, d)
+		_, ad := img(i, &mdesc{MediaType: mtImage, Digest: sd, Size: int64(len(sraw))}, "application/vnd.x.sig")
+		u.mans = append(u.mans, ad)
+		iraw, _ := buildIndex(mtIndex, []mdesc{{MediaType: mtImage, Digest: d, Size: int64(len(raw))}}, nil, "", nil)
+		u.mans = append(u.mans, dig("sha256", iraw))
+	}
+	return u
+}
+
 func c12fConf(root string) config.Config {
 	conf := baseConf(config.StoreDir, root)
 	conf.Storage.GC.GracePeriod = -1
